@@ -3,12 +3,18 @@
 Stateful: a rule-based machine draws a fully specified model description
 (calibrated linear / lattice / ensemble explicit, random, RTL / all-vertices or
 Kronecker-factored / output calibration / bounds, or a hand-assembled
-ParallelCombination -> Lattice|Linear stack) and a history of optimizer steps,
+ParallelCombination -> Lattice|Linear stack) and a history of optimizer steps
+(eager apply_gradients and model.compile/model.fit in graph mode),
 hostile updates (an SGD step whose gradient throws every variable to a generated
 far-away value, so the optimizer itself re-applies the constraints), weight
 round-trips, clone-and-restore and finalize; after construction and after every
 step the model is probed with input pairs that differ in one constrained
 feature.
+
+Descriptions come from vlib.models.model_desc and are post-processed here
+(model_desc below) with documented variants that generator does not draw; a
+Hypothesis example plays its history on two models, one per model kind of the
+shard's pair (begin_shard / desc_group), so every kind gets the same share.
 """
 import numpy as np
 from hypothesis import strategies as st
@@ -20,51 +26,80 @@ from vlib.harness import Outcome, TOL_MONO_F, safe_run
 
 ID = "C03"
 TITLE = "Premade and composed models stay monotone and bounded after any training history"
-RULE = ("A Hypothesis RuleBasedStateMachine draws a model description (8 kinds, "
-        "1-4 features quick / 6 thorough: numeric increasing / decreasing / "
-        "none with optional default value, clamps, convexity, learned "
-        "keypoints; categorical with ordering pairs and default bucket; "
-        "lattice sizes 2-3; trust / dominance pairs; output calibration; "
-        "bounds none/both/one-sided) and a history of sgd_step (lr 1e-3..1e2, "
-        "three losses with targets pushing against the constraints), "
-        "adam_step, hostile_update (every trainable variable thrown to a "
-        "generated value of scale 1e-2..1e3 through optimizer.apply_gradients), "
-        "roundtrip_weights, clone_restore and finalize. Invariant after "
-        "construction and every step: 40 base rows x every constrained feature "
-        "x 3 increments (in range, across keypoints, out of range) move the "
-        "output in the configured direction, every categorical pair is "
-        "ordered, outputs incl. missing-value rows are inside the bounds. "
-        "Non-trivial: a history with >= 1 hostile update or >= 1 SGD step with "
-        "lr >= 1; distinct by SHA-1 of (description, history).")
+RULE = ("A Hypothesis RuleBasedStateMachine draws, per example, one model "
+        "description for each of the two model kinds its shard owns (8 kinds "
+        "stratified over the shards: linear, lattice, ensemble explicit / "
+        "random / RTL, stack_lattice, stack_linear, stack_rtl2 = multi-unit "
+        "calibrators -> RTL(separate outputs) -> RTL -> Linear; 1-4 features "
+        "quick / 6 thorough: numeric increasing / decreasing / none with "
+        "optional default value (-1000, next to the keypoint range, inside "
+        "it, or equal to a keypoint), clamps, convexity, learned keypoints; "
+        "categorical with ordering pairs and default bucket (-1 or one of "
+        "the buckets); lattice sizes 2-3; trust / dominance pairs incl. "
+        "Edgeworth trust + dominance together and dominance inside the "
+        "Linear layer of a calibrated linear model; output calibration; "
+        "bounds none/both/one-sided) and ONE history that is played on both "
+        "models: sgd_step (lr 1e-3..1e2, momentum 0 or 0.9, three losses with "
+        "targets pushing against the constraints), adam_step, fit_step "
+        "(model.compile + model.fit in graph mode on 16 rows, batch 8, with "
+        "SGD / SGD momentum 0.9 / Adagrad / RMSprop / Adam), hostile_update "
+        "(every trainable variable thrown to a generated value of scale "
+        "1e-2..1e3 through optimizer.apply_gradients), roundtrip_weights, "
+        "clone_restore and finalize. Invariant after construction and every "
+        "step: 40 base rows x every constrained feature x 3 increments (in "
+        "range, across keypoints, out of range) move the output in the "
+        "configured direction, every categorical pair (of non-missing "
+        "buckets) is ordered, all outputs computed for these comparisons and "
+        "the missing-value rows are finite and inside the bounds. "
+        "Non-trivial: a history with >= 1 hostile update or >= 1 SGD / fit "
+        "step with lr >= 1; distinct by SHA-1 of (description, history).")
 NT_FLOOR = 0.4
-BUDGET = {"quick": 20, "thorough": 200}
+# Hypothesis examples PER SHARD; every example is played on two models (one per
+# kind of the shard's pair, see desc_group), i.e. 20 / 200 histories per shard.
+BUDGET = {"quick": 10, "thorough": 100}
 STEP_COUNT = {"quick": 7, "thorough": 20}
 TECHNIQUE = ("stateful property-based testing (Hypothesis RuleBasedStateMachine) "
              "over model configurations and training histories with "
              "metamorphic input pairs as the oracle")
 LEVEL_TEXT = ("Model-based exploration of training histories on real premade "
-              "and hand-assembled models: eager optimizer steps (SGD, Adam) and "
-              "adversarial updates applied through optimizer.apply_gradients so "
-              "that Keras itself re-applies every variable constraint; after "
-              "each step the model function is compared pairwise on generated "
-              "inputs for every configured monotonicity / categorical ordering "
-              "and against the output bounds including missing-value inputs.")
+              "and hand-assembled models: eager optimizer steps (SGD with and "
+              "without momentum, Adam), Keras' own compiled training loop "
+              "(model.fit with five optimizers) and adversarial updates "
+              "applied through optimizer.apply_gradients so that Keras itself "
+              "re-applies every variable constraint; after each step the "
+              "model function is compared pairwise on generated inputs for "
+              "every configured monotonicity / categorical ordering and "
+              "against the output bounds on every probe row including "
+              "far-out-of-range and missing-value inputs.")
 LEVEL_NOTE = ("Monotonicity tolerance 1e-5*max|f| per pair, bounds 1e-5*max(1,"
               "|bound|). Configurations inside open findings F-C01-1 (Edgeworth "
               "and trapezoid trusts together) and F-C04-1 (monotone + convex "
-              "calibrator) are not generated; adversarial updates keep learned "
+              "calibrator) are not generated; conditional features of trusts "
+              "are numeric; adversarial updates keep learned "
               "keypoint logits below |30|, optimizer steps that push them apart "
               "by more than 85 reach finding F-C03-4 (= F-C15-2). Non-finite weights after a step (float "
-              "overflow) end the history and are counted, not judged. fit() / "
-              "other optimizers are assumed to apply constraints the same way.")
+              "overflow) end the history and are counted, not judged. A pair "
+              "whose bucket is the categorical default value (= missing) makes "
+              "no claim. Optimizers other than the five used are assumed to "
+              "apply constraints the same way.")
 
 N_BASE = 40
+FIT_ROWS, FIT_BATCH = 16, 8       # fit_step: 2 optimizer steps of 8 rows
 
 
 def _probe_plan(desc, seed):
   """Base rows plus, per constrained feature, the modified copies."""
   x = M.base_points(desc, N_BASE, seed)
   rs = np.random.RandomState(seed + 1)
+  # A categorical default value that is one of the buckets makes that bucket
+  # "missing"; the monotonicity claims are about non-missing points, so base
+  # rows use the other buckets (the missing rows of the bound check keep it).
+  for j, f in enumerate(desc["features"]):
+    if f["type"] == "categorical" and f["default"] is not None and (
+        0 <= f["default"] < f["num_buckets"]):
+      others = [b for b in range(f["num_buckets"]) if b != f["default"]]
+      repl = np.asarray(others, np.float64)[rs.randint(0, len(others), N_BASE)]
+      x[:, j] = np.where(x[:, j] == f["default"], repl, x[:, j])
   plans = []
   for j, f in enumerate(desc["features"]):
     if f["type"] == "numeric" and f["mono"] != 0:
@@ -79,6 +114,8 @@ def _probe_plan(desc, seed):
         plans.append((j, f["mono"], x2, "numeric"))
     elif f["type"] == "categorical":
       for a, b in f["pairs"]:
+        if f["default"] is not None and f["default"] in (a, b):
+          continue       # a pair with the "missing" bucket: no claim
         xa, xb = x.copy(), x.copy()
         xa[:, j], xb[:, j] = a, b
         plans.append((j, 1, (xa, xb), "categorical"))
@@ -89,6 +126,10 @@ def _probe_plan(desc, seed):
       mask = rs.rand(N_BASE) < 0.5
       xm[:, j] = np.where(mask, f["default"], xm[:, j])
   return x, plans, xm
+
+
+class LibraryFitError(Exception):
+  """model.fit failed inside tensorflow_lattice code."""
 
 
 class Sim(object):
@@ -107,6 +148,8 @@ class Sim(object):
     self.hostile = 0
     self.big_steps = 0
     self.optimizer_steps = 0      # weights are the initial ones while 0
+    self.compiled = None          # (optimizer, lr) the model is compiled with
+    self.fits = 0
 
   def f(self, x):
     y = self.model(M.model_inputs(self.desc, x))
@@ -132,14 +175,8 @@ class Sim(object):
       return -tf.reduce_mean(y)
     if kind == "pos_mean":
       return tf.reduce_mean(y)
-    # mse against targets that decrease in every increasing feature (and
-    # increase in decreasing ones): pushes against the constraints.
-    t = np.zeros(len(xb))
-    for j, f in enumerate(self.desc["features"]):
-      col = xb[:, j]
-      sgn = -1.0 if f["type"] == "categorical" else -float(f.get("mono", 0) or 1)
-      t += sgn * (col - col.mean()) / (col.std() + 1e-6)
-    t = (t * rs.choice([0.1, 1.0, 10.0])).astype(np.float32).reshape(-1, 1)
+    # mse against targets that push against the constraints.
+    t = self._targets(xb, rs)
     return tf.reduce_mean((y - t) ** 2)
 
   def train_step(self, op):
@@ -150,10 +187,12 @@ class Sim(object):
         self.adam = self.keras.optimizers.Adam(learning_rate=op["lr"])
       opt = self.adam
     else:
-      opt = self.sgd.get(op["lr"])
+      mom = op.get("momentum", 0.0)
+      key = op["lr"] if not mom else (op["lr"], mom)
+      opt = self.sgd.get(key)
       if opt is None:
-        opt = self.sgd[op["lr"]] = self.keras.optimizers.SGD(
-            learning_rate=op["lr"])
+        opt = self.sgd[key] = self.keras.optimizers.SGD(
+            learning_rate=op["lr"], momentum=mom)
       if op["lr"] >= 1.0:
         self.big_steps += 1
     with tf.GradientTape() as tape:
@@ -166,6 +205,54 @@ class Sim(object):
     if pairs:
       opt.apply_gradients(pairs)
       self.optimizer_steps += 1
+
+  def _targets(self, xb, rs):
+    """Regression targets that decrease in every increasing feature (and
+    increase in decreasing ones): training on them pushes against the
+    constraints."""
+    t = np.zeros(len(xb))
+    for j, f in enumerate(self.desc["features"]):
+      col = xb[:, j]
+      sgn = -1.0 if f["type"] == "categorical" else -float(f.get("mono", 0) or 1)
+      t += sgn * (col - col.mean()) / (col.std() + 1e-6)
+    return (t * rs.choice([0.1, 1.0, 10.0])).astype(np.float32).reshape(-1, 1)
+
+  def fit_step(self, op):
+    """Keras' own training loop: model.compile + model.fit (graph mode, the
+    constraints run inside the compiled train function) on a tiny batch.  The
+    compiled model is kept for later fit_steps of the same optimizer config."""
+    keras = self.keras
+    key = (op["opt"], op["lr"])
+    if self.compiled != key:
+      lr = op["lr"]
+      opt = {"sgd": lambda: keras.optimizers.SGD(learning_rate=lr),
+             "momentum": lambda: keras.optimizers.SGD(learning_rate=lr,
+                                                      momentum=0.9),
+             "adagrad": lambda: keras.optimizers.Adagrad(learning_rate=lr),
+             "rmsprop": lambda: keras.optimizers.RMSprop(learning_rate=lr),
+             "adam": lambda: keras.optimizers.Adam(learning_rate=lr)}[
+                 op["opt"]]()
+      self.model.compile(optimizer=opt, loss="mse")
+      self.compiled = key
+    xb, rs = self._batch(op["seed"], n=FIT_ROWS)
+    t = self._targets(xb, rs)
+    try:
+      self.model.fit(M.model_inputs(self.desc, xb), t, epochs=1,
+                     batch_size=FIT_BATCH, shuffle=False, verbose=0)
+    except Exception as e:  # pylint: disable=broad-except
+      # Errors raised while the train function is traced are re-raised by
+      # TensorFlow with the library frames only quoted in the message ("in user
+      # code: File .../tensorflow_lattice/..."), so the harness would not
+      # attribute them to the library.
+      import traceback
+      text = "%s\n%s" % (e, traceback.format_exc())
+      if "/tensorflow_lattice/" in text.replace("\\", "/"):
+        raise LibraryFitError(type(e).__name__, str(e))
+      raise
+    if op["lr"] >= 1.0:
+      self.big_steps += 1
+    self.optimizer_steps += FIT_ROWS // FIT_BATCH
+    self.fits += 1
 
   def hostile_update(self, op):
     """SGD(lr=1) with gradient = variable - target: the optimizer moves every
@@ -213,6 +300,7 @@ class Sim(object):
     model2.set_weights(w)
     self.model = model2
     self.sgd, self.adam = {}, None
+    self.compiled = None
     after = self.f(self.x)
     out.checks += 1
     sc = max(1.0, float(np.max(np.abs(before))))
@@ -243,13 +331,22 @@ def judge(sim, out, after):
                 collapsed_learned_keypoint=_collapsed_learned_keypoint(
                     sim.model), **sig)
     return
+  seen = [y0]          # every output computed here is bound-checked below
   for j, direction, mod, typ in sim.plans:
     if typ == "numeric":
       y1 = sim.f(mod)
       base = y0
+      seen.append(y1)
     else:
       base, y1 = sim.f(mod[0]), sim.f(mod[1])
+      seen.extend([base, y1])
     out.checks += 1
+    if not (np.all(np.isfinite(y1)) and np.all(np.isfinite(base))):
+      out.violate("non-finite model output on probe rows after %s" % after,
+                  kind="finite",
+                  collapsed_learned_keypoint=_collapsed_learned_keypoint(
+                      sim.model), **sig)
+      return
     sc = max(1.0, float(np.max(np.abs(base))), float(np.max(np.abs(y1))))
     drop = float(np.max(-(y1 - base) * direction))
     if drop > TOL_MONO_F * sc:
@@ -264,8 +361,14 @@ def judge(sim, out, after):
   lo, hi = M.bounded(desc)
   if lo is not None or hi is not None:
     ym = sim.f(sim.xm)
-    yy = np.concatenate([y0, ym])
+    yy = np.concatenate(seen + [ym])
     out.checks += 1
+    if not np.all(np.isfinite(ym)):
+      out.violate("non-finite model output on missing-value rows after %s" %
+                  after, kind="finite",
+                  collapsed_learned_keypoint=_collapsed_learned_keypoint(
+                      sim.model), **sig)
+      return
     tol = 1e-5 * max(1.0, abs(lo or 0.0), abs(hi or 0.0))
     bv = 0.0
     if lo is not None:
@@ -347,12 +450,42 @@ def play(desc, ops):
   if desc.get("trust"):
     out.label("trust:" + desc["trust"]["type"])
   if desc.get("dominance"):
-    out.label("dominance")
+    out.label("dominance", "dominance:" + (
+        "linear" if desc["kind"] == "linear" else "lattice"))
+    if desc.get("trust"):
+      out.label("trust+dominance")
+  for f in feats:
+    if f["default"] is None:
+      continue
+    if f["type"] == "categorical":
+      if 0 <= f["default"] < f["num_buckets"]:
+        out.label("missing:categorical-default-is-a-bucket")
+    elif f["default"] != -1000.0:
+      kp = f["keypoints"]
+      out.label("missing:default-is-a-keypoint" if f["default"] in kp else
+                "missing:default-inside-keypoint-range"
+                if kp[0] < f["default"] < kp[-1] else
+                "missing:default-next-to-keypoint-range")
+  lo, hi = M.bounded(desc)
+  if lo is not None or hi is not None:
+    out.label("bounds-checked-on-plan-rows")
   judge(sim, out, "construction")
   for op in ops:
     name = op["op"]
     out.label("op:" + name)
-    if name in ("sgd_step", "adam_step"):
+    if name == "sgd_step" and op.get("momentum"):
+      out.label("op:sgd_step(momentum)")
+    if name == "fit_step":
+      out.label("fit:" + op["opt"])
+      try:
+        sim.fit_step(op)
+      except LibraryFitError as e:
+        out.nontrivial = True
+        out.violate("model.compile/model.fit(%s) on a valid model raised %s: "
+                    "%s" % (op["opt"], e.args[0], e.args[1][:300]),
+                    kind="exception", exc=e.args[0], where="model.fit")
+        return out
+    elif name in ("sgd_step", "adam_step"):
       sim.train_step(op)
     elif name == "hostile_update":
       sim.hostile_update(op)
@@ -372,6 +505,7 @@ def play(desc, ops):
       break
   out.nontrivial = bool(sim.hostile > 0 or sim.big_steps > 0)
   out.info["hostile_updates"] = sim.hostile
+  out.info["fit_steps"] = sim.fits
   return out
 
 
@@ -383,6 +517,7 @@ LRS = [1e-3, 1e-1, 1.0, 10.0, 100.0]
 op_sgd = st.fixed_dictionaries({
     "op": st.just("sgd_step"), "lr": st.sampled_from(LRS),
     "loss": st.sampled_from(["mse_against", "neg_mean", "pos_mean"]),
+    "momentum": st.sampled_from([0.0, 0.0, 0.9]),
     "seed": st.integers(0, 10**6)})
 op_adam = st.fixed_dictionaries({
     "op": st.just("adam_step"), "lr": st.sampled_from([1e-2, 1.0]),
@@ -392,6 +527,118 @@ op_hostile = st.fixed_dictionaries({
     "op": st.just("hostile_update"),
     "scale": st.sampled_from([1e-2, 1.0, 1.0, 10.0, 1e3]),
     "seed": st.integers(0, 10**6)})
+# model.compile + model.fit; the learning rates stay <= 10 for the optimizers
+# that normalise the gradient (one step is then ~lr per weight).
+op_fit = st.one_of(
+    st.fixed_dictionaries({
+        "op": st.just("fit_step"),
+        "opt": st.sampled_from(["sgd", "momentum", "momentum"]),
+        "lr": st.sampled_from([1e-1, 1.0, 10.0, 100.0]),
+        "seed": st.integers(0, 10**6)}),
+    st.fixed_dictionaries({
+        "op": st.just("fit_step"),
+        "opt": st.sampled_from(["adagrad", "rmsprop", "adam"]),
+        "lr": st.sampled_from([1e-2, 1.0, 10.0]),
+        "seed": st.integers(0, 10**6)}))
+
+
+# --------------------------------------------------------------------------
+# model descriptions: vlib.models.model_desc plus documented variants it does
+# not draw (post-processed here; build_model reads the same fields).
+KIND_PAIRS = [["stack_rtl2", "linear"], ["ensemble_random", "stack_linear"],
+              ["ensemble_explicit", "stack_lattice"], ["lattice",
+                                                       "ensemble_rtl"]]
+_SHARD = {"pairs": None}
+
+
+def begin_shard(tier, shard, nshards, seed):
+  """Stratifies the 8 model kinds over the shards: with >= 4 shards a shard
+  owns one pair of kinds (a costly one with a cheap one)."""
+  del tier, seed
+  m = min(nshards, len(KIND_PAIRS))
+  _SHARD["pairs"] = [p for j, p in enumerate(KIND_PAIRS) if j % m == shard % m]
+
+
+@st.composite
+def desc_group(draw, tier, pairs=None):
+  """One description per kind of a pair: a Hypothesis example plays the same
+  drawn history on both models, so every kind gets exactly half of a shard's
+  histories (a random choice of the kind per example turned out lumpy: 4 of 22
+  histories for one kind)."""
+  pairs = pairs or KIND_PAIRS
+  pair = pairs[0] if len(pairs) == 1 else draw(st.sampled_from(pairs))
+  return [draw(model_desc(tier, kinds=[k])) for k in pair]
+
+
+@st.composite
+def model_desc(draw, tier, kinds=None):
+  desc = draw(M.model_desc(tier, kinds=kinds))
+  feats = desc["features"]
+  kind = desc["kind"]
+  mono_feats = [i for i, f in enumerate(feats)
+                if f["type"] == "numeric" and f["mono"] != 0]
+  # (review item 7) missing-value defaults inside / next to the keypoint
+  # range, equal to a keypoint, and a categorical default that is a bucket.
+  for f in feats:
+    if f["default"] is None or draw(st.integers(0, 2)) == 0:
+      continue
+    if f["type"] == "categorical":
+      f["default"] = draw(st.integers(0, f["num_buckets"] - 1))
+    else:
+      kp = f["keypoints"]
+      where = draw(st.sampled_from(["keypoint", "keypoint", "inside", "below",
+                                    "above"]))
+      if where == "keypoint":
+        f["default"] = float(kp[draw(st.integers(0, len(kp) - 1))])
+      elif where == "inside":
+        f["default"] = S.f32(kp[0] + 0.37 * (kp[1] - kp[0]))
+      elif where == "below":
+        f["default"] = S.f32(kp[0] - 1.0)
+      else:
+        f["default"] = S.f32(kp[-1] + 1.0)
+  numeric = [i for i, f in enumerate(feats) if f["type"] == "numeric"]
+
+  def make_monotone(i):
+    f = feats[i]
+    if f["mono"] == 0:
+      f["mono"] = draw(st.sampled_from([1, -1]))
+      f["convexity"] = 0          # monotone + convex is finding F-C04-1's region
+    if i not in mono_feats:
+      mono_feats.append(i)
+
+  # (review item 4) monotonic dominance inside the Linear layer of a
+  # calibrated linear model (both features monotonic, as documented).
+  if kind == "linear" and len(numeric) >= 2 and draw(st.integers(0, 3)) > 0:
+    a, b = draw(st.permutations(numeric))[:2]
+    make_monotone(a)
+    make_monotone(b)
+    desc["dominance"] = {"dominant": a, "weak": b}
+  # (review item 4) more trust constraints, and an Edgeworth trust together
+  # with a dominance pair.  Edgeworth + trapezoid on one pair stays excluded
+  # (F-C01-1); conditional features stay numeric (a categorical conditional
+  # feature is not documented).
+  if desc["parameterization"] == "all_vertices" and kind in (
+      "lattice", "ensemble_explicit", "stack_lattice") and len(numeric) >= 2:
+    if desc["trust"] is None and desc["dominance"] is None and draw(
+        st.booleans()):
+      m, c = draw(st.permutations(numeric))[:2]
+      make_monotone(m)
+      desc["trust"] = {"main": m, "cond": c,
+                       "type": draw(st.sampled_from(["edgeworth", "edgeworth",
+                                                     "trapezoid"])),
+                       "direction": draw(st.sampled_from([1, -1]))}
+      if kind == "ensemble_explicit":
+        # keep main and conditional feature together (as the library asks).
+        for l in desc["lattices"]:
+          if "f%d" % c in l and "f%d" % m not in l:
+            l.append("f%d" % m)
+    if desc["trust"] is not None and desc["trust"]["type"] == "edgeworth" and (
+        desc["dominance"] is None and draw(st.integers(0, 2)) > 0):
+      a, b = draw(st.permutations(numeric))[:2]
+      make_monotone(a)
+      make_monotone(b)
+      desc["dominance"] = {"dominant": a, "weak": b}
+  return desc
 
 
 def machine(tier, sink):
@@ -399,12 +646,12 @@ def machine(tier, sink):
 
     def __init__(self):
       super(ModelMachine, self).__init__()
-      self.desc = None
+      self.descs = None
       self.ops = []
 
-    @initialize(desc=M.model_desc(tier))
-    def build(self, desc):
-      self.desc = desc
+    @initialize(descs=desc_group(tier, _SHARD["pairs"]))
+    def build(self, descs):
+      self.descs = descs
 
     @rule(op=op_sgd)
     def sgd_step(self, op):
@@ -412,6 +659,10 @@ def machine(tier, sink):
 
     @rule(op=op_adam)
     def adam_step(self, op):
+      self.ops.append(op)
+
+    @rule(op=op_fit)
+    def fit_step(self, op):
       self.ops.append(op)
 
     @rule(op=op_hostile)
@@ -440,10 +691,11 @@ def machine(tier, sink):
       self.ops.append({"op": "finalize"})
 
     def teardown(self):
-      if self.desc is None:
+      if self.descs is None:
         return
-      case = {"desc": self.desc, "ops": self.ops}
       import props.c03 as me
-      sink(case, safe_run(me, case))
+      for desc in self.descs:
+        case = {"desc": desc, "ops": list(self.ops)}
+        sink(case, safe_run(me, case))
 
   return ModelMachine
